@@ -432,7 +432,8 @@ class Check:
                                         "seed": self.seed}, False))
             for sig in sorted(seen_known):
                 print("KNOWN-FINDING: property=%s %s" % (pid, known_sigs[sig].get("what", sig)), flush=True)
-            # dedupe violations by signature
+            # dedupe violations by signature, smallest witness first
+            violations.sort(key=lambda v: len(json.dumps(v[2].get("args", []))))
             out_v, seen = [], set()
             for v in violations:
                 if v[0] in seen:
